@@ -21,6 +21,8 @@ package basic
 //@   assert at call store.UsersPersistenceInterface.GetAuthUniqueRecord [C12] folded_lookup: $2 == strings.ToLower($2)
 //@   assert at call bcrypt.CompareHashAndPassword [C12] known_login: uid != types.ZeroUid
 //@   assert at call bcrypt.CompareHashAndPassword [C12] whole_password_compared: len($2) == len(password)
+// (bcrypt looks at the first 72 bytes only: a longer password would be compared by its prefix)
+//@   assert at call bcrypt.CompareHashAndPassword [C12] nothing_ignored_by_bcrypt: len($2) <= 72
 
 //@ func (a *authenticator) IsUnique(secret []byte, remoteAddr string) (ok bool, err error)
 //@   requires [C12] a != nil
